@@ -316,7 +316,20 @@ def run_shard(shard, rec):
                             for places in (1, 3, 10):
                                 check_2base_places(ctx, name, other, s,
                                                    places)
-        rec.exhaustive.append('range boundaries of all three bases')
+        # the range boundaries of every *output* base, written in every
+        # other (wider) input base: HEX2BIN at -512 / 511 / 512 / -513, ...
+        for name, base in BASES.items():
+            half = HALF[base]
+            for other, obase in BASES.items():
+                if other == name:
+                    continue
+                for n in boundaries(obase):
+                    if -half <= n < half:
+                        s = to_base(n + 2 * half if n < 0 else n, base)
+                        check_2dec(ctx, name, s)
+                        check_2dec(ctx, name, s.lower())
+        rec.exhaustive.append('range boundaries of all three bases, each '
+                              'written in all three bases')
     elif kind == 'malformed':
         seeds = {'BIN': ['1', '101', '1111111111', '0000000001'],
                  'OCT': ['7', '17', '7777777777', '0000000010'],
